@@ -3,6 +3,8 @@ C01 — JDN → date → JDN round trip is exact in every calendar.
 -/
 import JulianVerif.Lemmas.Proleptic
 import JulianVerif.Lemmas.YearStart
+import JulianVerif.Lemmas.AtJdn
+import JulianVerif.Lemmas.Inverse
 namespace JV.C01
 open JV Spec
 
@@ -40,5 +42,62 @@ theorem label_injective_proleptic (ρ : Rule) (j j' : Int) (d d' : Date)
   simp only at hl
   obtain ⟨rfl, rfl, rfl⟩ := hl
   exact hd.2.symm.trans hd'.2
+
+/-- **every calendar a caller can hold, every day number (no bound): converting the day
+number to a date succeeds and yields a date that reports that same day number** and belongs
+to that calendar, labelled as the specification says (Julian before R, Gregorian from R) -/
+theorem atJdn_total (c : Calendar) (hc : WF c) (j : Int) :
+    ∃ d, c.atJdn? j = some d ∧ d.calendar = c ∧ d.jdn = j
+      ∧ IsDate (ruleAt c j) j d.year d.month d.day :=
+  JV.atJdn_total c hc j
+
+/-- **feeding that date's year/month/day, or its year/day-of-year, back into the same
+calendar returns the identical date** (all seven fields), for every 32-bit day number -/
+theorem roundtrip (c : Calendar) (hc : WF c) (j : Int) (hj : InI32 j) (d : Date)
+    (h : c.atJdn? j = some d) :
+    c.atYmd d.year d.month d.day = .ok d ∧ c.atOrdinalDate d.year d.ordinal = .ok d :=
+  atJdn_roundtrip c hc j hj d h
+
+/-- the hypotheses are satisfiable: the calendar reforming on day 2299664 (which used to
+panic on Dec 31, 1584 — defect D1) and that very day -/
+example : ∃ c, Calendar.mkReforming 2299664 = .ok c
+    ∧ c.atJdn? 2299969 = some ⟨c, 1584, 356, .december, 31, 31, 2299969⟩ := ⟨_, rfl, rfl⟩
+
+/-- **no two day numbers of one calendar share a year/month/day** -/
+theorem label_injective (c : Calendar) (hc : WF c) (j j' : Int) (d d' : Date)
+    (h : c.atJdn? j = some d) (h' : c.atJdn? j' = some d')
+    (hl : d.year = d'.year ∧ d.month = d'.month ∧ d.day = d'.day) : j = j' := by
+  obtain ⟨e, he, _, _, hd⟩ := JV.atJdn_total c hc j
+  obtain ⟨e', he', _, _, hd'⟩ := JV.atJdn_total c hc j'
+  rw [h] at he; rw [h'] at he'
+  cases he; cases he'
+  rw [hl.1, hl.2.1, hl.2.2] at hd
+  -- same label: if the two days are on the same side, the rule decides; otherwise the
+  -- Julian label precedes the last Julian date and the Gregorian one follows the first
+  rcases hc.cases with rfl | rfl | ⟨rf, rfl, _⟩
+  · exact hd.2.symm.trans hd'.2
+  · exact hd.2.symm.trans hd'.2
+  · simp only [Reform.cal, ruleAt, side] at hd hd'
+    by_cases c1 : j < rf.R <;> by_cases c2 : j' < rf.R
+    · rw [if_pos c1] at hd; rw [if_pos c2] at hd'; exact hd.2.symm.trans hd'.2
+    · rw [if_pos c1] at hd; rw [if_neg c2] at hd'
+      exfalso
+      have o1 := rf.julian_side_order c1 hd
+      have o2 := rf.gregorian_side_order (by omega) hd'
+      rcases o1 with a | ⟨a, a2⟩ <;> rcases o2 with b | ⟨b, b2⟩
+      · have := rf.yP_le_yQ; omega
+      · have := rf.yP_le_yQ; omega
+      · have := rf.yP_le_yQ; omega
+      · exact rf.no_shared_label a b a2 b2
+    · rw [if_neg c1] at hd; rw [if_pos c2] at hd'
+      exfalso
+      have o1 := rf.julian_side_order c2 hd'
+      have o2 := rf.gregorian_side_order (by omega) hd
+      rcases o1 with a | ⟨a, a2⟩ <;> rcases o2 with b | ⟨b, b2⟩
+      · have := rf.yP_le_yQ; omega
+      · have := rf.yP_le_yQ; omega
+      · have := rf.yP_le_yQ; omega
+      · exact rf.no_shared_label a b a2 b2
+    · rw [if_neg c1] at hd; rw [if_neg c2] at hd'; exact hd.2.symm.trans hd'.2
 
 end JV.C01
